@@ -266,7 +266,23 @@ def trait_method(run, f, d, fn, trait, self_ty):
                     n_none += 1
                 elif core2[0] == "agg" and core2[1][:3] == ("adt", "std::option::Option", "Some"):
                     inner, d3 = peel(tr, core2[2][0])
-                    if is_box_new(tr, inner):
+                    if inner[0] == "call" and (fn_path(tr.call_term(inner[1])) or "") in ("core::convert::Into::into", "core::convert::From::from"):
+                        # `Some(strong.into())`: boxing through the crate's direct by-value `From<ActorRef<T>> for Box<dyn ..>`
+                        x = norm_try(tr, tr.call_args(inner[1])[0])
+                        oty = f.ty(fn["output"])
+                        out_s = oty.args[0].s if oty.args else None
+                        impls = [dd_ for dd_, ff in f.fns.items() if ff.get("impl_trait") == "std::convert::From" and ff.get("name") == "from" and ff.get("has_body") and ff["inputs"]
+                                 and f.ty(ff["inputs"][0]).is_adt("actor_ref::ActorRef") and f.ty(ff["output"]).s == out_s]
+                        direct = False
+                        if len(impls) == 1:
+                            ib = f.body(impls[0])
+                            itr = tracer_of(ib)
+                            iret, _ = peel(itr, itr.norm(itr.local(0)))
+                            direct = is_box_new(itr, iret) and strip_refs(itr.norm(itr.call_args(iret[1])[0])) == ("param", 1)
+                        if x[0] == "try_ok" and is_up(x[1]) and direct:
+                            n_some += 1
+                            via_into = True
+                    elif is_box_new(tr, inner):
                         x = norm_try(tr, tr.call_args(inner[1])[0])
                         dd = list(d2) + list(d3)
                         if x[0] == "try_ok" and is_up(x[1]) and dd and all(z == want for z in dd):
@@ -290,7 +306,8 @@ def trait_method(run, f, d, fn, trait, self_ty):
                 mem = mem3
             if n_some == 1 and n_none == 1 and len(mem) == 2:
                 okc = clos_ok = True
-                calls = [b for b in calls if (fn_path(b.term) or "") not in ("core::ops::try_trait::Try::branch", "core::ops::try_trait::FromResidual::from_residual") and not is_box_new(tr, ("call", b.idx, callee(b.term) or ""))]
+                calls = [b for b in calls if (fn_path(b.term) or "") not in ("core::ops::try_trait::Try::branch", "core::ops::try_trait::FromResidual::from_residual", "core::convert::Into::into", "core::convert::From::from")
+                         and not is_box_new(tr, ("call", b.idx, callee(b.term) or ""))]
         run.require(okc and clos_ok, "O16.2", "upgrade:%s" % key, "%s is not ActorWeak::upgrade(self).map(|r| Box::new(r) as Box<dyn %s>): %s" % (key, want, show(ret)),
                     "ActorWeak::upgrade(self).map(box into dyn %s)" % want.split("::")[-1], loc=loc)
         extra = [callee(b.term) for b in calls if callee(b.term) != K and not (callee(b.term) or "").endswith("Option::<T>::map")]
